@@ -13,9 +13,11 @@ import (
 	"flag"
 	"fmt"
 	"go/ast"
+	"go/build"
 	"go/parser"
 	"go/printer"
 	"go/token"
+	"go/types"
 	"os"
 	"path/filepath"
 	"sort"
@@ -108,6 +110,13 @@ func main() {
 			}
 		}
 		sort.Strings(names)
+		fset := token.NewFileSet()
+		type pf struct {
+			src string
+			f   *ast.File
+		}
+		var parsed []pf
+		var astFiles []*ast.File
 		for _, n := range names {
 			if !strings.HasSuffix(n, ".go") || strings.HasSuffix(n, "_test.go") {
 				continue
@@ -115,8 +124,30 @@ func main() {
 			src := filepath.Join(dir, n)
 			from := src
 			if r, ok := repl[src]; ok {
-				from = r // mutant / candidate fix replaces this file: rewrite the replacement
+				from = r // mutant / candidate fix / hook replaces or adds this file: rewrite the replacement
 			}
+			f, err := parser.ParseFile(fset, from, nil, parser.ParseComments)
+			if err != nil {
+				fmt.Fprintf(os.Stderr, "overlay: %s: %v\n", from, err)
+				os.Exit(2)
+			}
+			if !buildOK(from) {
+				continue
+			}
+			parsed = append(parsed, pf{src, f})
+			astFiles = append(astFiles, f)
+		}
+		var info *types.Info
+		if want["chan"] {
+			var err error
+			info, err = typeCheck(*repo, dir, fset, astFiles)
+			if err != nil {
+				// incomplete type information only weakens range-over-channel detection; say so
+				fmt.Fprintf(os.Stderr, "overlay: type check of %s incomplete: %v\n", pkg, err)
+			}
+		}
+		for _, p := range parsed {
+			src := p.src
 			var ex []string
 			for _, x := range extracts {
 				f0, rest, _ := strings.Cut(x, ":")
@@ -124,7 +155,7 @@ func main() {
 					ex = append(ex, rest)
 				}
 			}
-			b, changed, stats, err := rewriteFile(from, want, *gostmts, ex)
+			b, changed, stats, err := rewriteFile(fset, p.f, want, *gostmts, ex, info)
 			if err != nil {
 				fmt.Fprintf(os.Stderr, "overlay: %s: %v\n", src, err)
 				os.Exit(2)
@@ -153,12 +184,14 @@ func main() {
 	fmt.Printf("overlay: %d files (%d rewritten)\n", len(repl), len(report))
 }
 
-func rewriteFile(path string, want map[string]bool, gostmts bool, extracts []string) ([]byte, bool, map[string]int, error) {
-	fset := token.NewFileSet()
-	f, err := parser.ParseFile(fset, path, nil, parser.ParseComments)
-	if err != nil {
-		return nil, false, nil, err
-	}
+// buildOK applies the file's build constraints for the host platform (files excluded by a
+// //go:build line or a _GOOS/_GOARCH suffix are left alone).
+func buildOK(path string) bool {
+	ok, err := build.Default.MatchFile(filepath.Dir(path), filepath.Base(path))
+	return err != nil || ok
+}
+
+func rewriteFile(fset *token.FileSet, f *ast.File, want map[string]bool, gostmts bool, extracts []string, info *types.Info) ([]byte, bool, map[string]int, error) {
 	stats := map[string]int{}
 	changed := false
 	var extraSrc []string
@@ -265,6 +298,16 @@ func rewriteFile(path string, want map[string]bool, gostmts bool, extracts []str
 			if !added {
 				f.Decls = append([]ast.Decl{&ast.GenDecl{Tok: token.IMPORT, Specs: []ast.Spec{spec}}}, f.Decls...)
 			}
+		}
+	}
+	if want["chan"] {
+		n, err := rewriteChans(fset, f, info)
+		if err != nil {
+			return nil, false, nil, err
+		}
+		if n > 0 {
+			stats["chan"] = n
+			changed = true
 		}
 	}
 	if !changed {
